@@ -34,9 +34,9 @@ def cases(tier, seed):
                      and c.get("devlevel") is not None][::7]
     for c in src:
         d = c["desc"]
-        if tier == "quick" and min(min(h - l for l, h in zip(lo, hi)) for lv in d["levels"] for lo, hi in lv) == 0 \
-                and (c.get("devlevel") is not None or len(d["fields"]) != 3):
-            continue        # boxes one cell thick: default layouts only in the quick tier
+        special = min(min(h - l for l, h in zip(lo, hi)) for lv in d["levels"] for lo, hi in lv) == 0 or d["domain"][0] > 1000
+        if tier == "quick" and special and (c.get("devlevel") is not None or len(d["fields"]) != 3):
+            continue        # boxes one cell thick / six-digit indices: default layouts only in the quick tier
         if d["payload"] != "coded" and tier == "quick":
             continue
         if len(d["fields"]) not in ((2, 3) if tier == "quick" else (1, 2, 3, 4)):
